@@ -110,12 +110,20 @@ def run(chk):
             if st != "ok" or not np.array_equal(np.array(sh2.vertices, float), ref):
                 chk.violation("table-aliased", dict(family=fname, entry=key, outcome=st, what="get_shape after modifying a previously returned shape differs from the table"))
         for bad in ("No Such Solid", "cube", ""):
-            st, _ = C.excname(fam.get_shape, bad)
+            for attempt in (1, 2, 3):          # (a refused lookup stays refused however often it is repeated)
+                st, _ = C.excname(fam.get_shape, bad)
+                if st != "KeyError":
+                    chk.violation("unknown-name", dict(family=fname, name=bad, outcome=st, attempt=attempt)); break
+        if list(fam.names) != names:
+            chk.violation("names-order", dict(family=fname, what="the names changed after refused lookups"))
+    known_dois = sorted(Fm.DOI_SHAPE_REPOSITORIES.keys())
+    for doi in ("10.0000/nothing", "", "10.1126/science.122086"):
+        for attempt in (1, 2, 3):
+            st, got = C.excname(lambda: Fm.DOI_SHAPE_REPOSITORIES[doi])
             if st != "KeyError":
-                chk.violation("unknown-name", dict(family=fname, name=bad, outcome=st))
-    st, _ = C.excname(lambda: Fm.DOI_SHAPE_REPOSITORIES["10.0000/nothing"])
-    if st != "KeyError":
-        chk.violation("unknown-doi", dict(outcome=st))
+                chk.violation("unknown-doi", dict(doi=doi, outcome=st, attempt=attempt, returned=None if st != "ok" else repr(got)[:80])); break
+        if doi in Fm.DOI_SHAPE_REPOSITORIES or sorted(Fm.DOI_SHAPE_REPOSITORIES.keys()) != known_dois:
+            chk.violation("unknown-doi", dict(doi=doi, what="a refused DOI is listed among the repository's keys afterwards")); break
     res = C.run_model(cases)
     nvm, okvm = C.vm_crosscheck(cases[:3], res[:3], "C18", limit=3)
     if not okvm:
